@@ -181,6 +181,8 @@ Definition j_mismatch (c : jcase) : bool :=
 Definition json_mismatches (cs : list jcase) : list Z := map j_id (filter j_mismatch cs).
 (* specification side: with distinct parameter names every parameter label holds what jlookup finds (and a label that
    is no parameter is not assigned): evaluated on the OBSERVED labels *)
+Fixpoint str_all (p : ascii -> bool) (s : string) : bool :=
+  match s with EmptyString => true | String c r => p c && str_all p r end.
 Definition j_spec_violation (c : jcase) : bool :=
   match j_spec c, j_tree c with
   | JsonParams ps, Some v =>
@@ -189,9 +191,10 @@ Definition j_spec_violation (c : jcase) : bool :=
                             | None => negb (mem_str (fst a) (map fst (j_obs c)))
                             end) ps
           && forallb (fun kv => mem_str (fst kv) (map fst ps)) (j_obs c))
+  | JsonAll, _ => negb (forallb (fun kv => str_all label_char (fst kv)) (j_obs c))      (* every label name is sanitised *)
   | _, _ => false
   end.
 Fixpoint nodup_str (l : list string) : bool :=
   match l with [] => true | x :: r => negb (mem_str x r) && nodup_str r end.
 Definition json_spec_violations (cs : list jcase) : list Z :=
-  map j_id (filter (fun c => match j_spec c with JsonParams ps => nodup_str (map fst ps) | _ => false end && j_spec_violation c) cs).
+  map j_id (filter (fun c => match j_spec c with JsonParams ps => nodup_str (map fst ps) | JsonAll => true end && j_spec_violation c) cs).
